@@ -153,7 +153,7 @@ def main(pid, tier):
                     return ob, r2
             return ob, res
         undecided = [i for i, (ob, res) in enumerate(results)
-                     if ob["expect"] == "unsat" and res["status"] not in ("sat", "unsat") and ob.get("pins") and not ob.get("nf_closed")]
+                     if res["status"] not in ("sat", "unsat") and ob.get("pins") and not ob.get("nf_closed")]
         if undecided:
             with cf.ThreadPoolExecutor(max_workers=JOBS) as pool:
                 for i, new in zip(undecided, pool.map(second, [results[i] for i in undecided])):
